@@ -51,6 +51,7 @@ static DeserializationError deser(char fmt, JsonDocument& d, int rk, const strin
     case 6: { JsonDocument src; src.set(in.c_str()); e = CALL(src.as<JsonVariantConst>()); break; }
     case 7: { Block b(in); e = CALL((const unsigned char*)b.p, in.size()); break; }
     case 8: { Block b(in); CountingReader r{b.p, in.size()}; r.chunk = 3; e = CALL(r); consumed = (long)r.pos; break; }
+    case 9: { Block b(in); BlockBuf bb(b.p, in.size(), 1 + in.size() % 7); std::istream is(&bb); e = CALL(is); consumed = (long)bb.consumed(); break; }
 #ifdef AJ_ARDUINO
     case 20: { ::String s(in.c_str()); e = CALL(s); break; }
     case 21: { Block b(in); MockStream ms(b.p, in.size()); e = CALL((Stream&)ms); consumed = (long)ms.pos; break; }
@@ -101,11 +102,15 @@ int main(int argc, char** argv) {
       long consumed; DeserializationError e;
       if (op == "jsonfilt") {
         JsonDocument fd; string f = unhex(fhex); deserializeJson(fd, f, DeserializationOption::NestingLimit(20));
+        SPY0.markPeak(); size_t base = SPY0.cur;
         e = deser('j', d, rk, in, consumed, DeserializationOption::Filter(fd.as<JsonVariantConst>()), DeserializationOption::NestingLimit((uint8_t)lim));
-        size_t req = SPY0.requested;
+        size_t req = SPY0.requested; long pk = (long)SPY0.peak - (long)base, fin = (long)SPY0.cur - (long)base;
         JsonDocument u(&SPY0); SPY0.requested = 0; long c2;
+        SPY0.markPeak(); base = SPY0.cur;
         DeserializationError eu = deser('j', u, rk, in, c2, DeserializationOption::NestingLimit((uint8_t)lim));
+        long pku = (long)SPY0.peak - (long)base, finu = (long)SPY0.cur - (long)base;
         out = string(e.c_str()) + " " + showS(d.as<JsonVariantConst>()) + " " + num(consumed) + " req=" + std::to_string(req) + " requ=" + std::to_string(SPY0.requested) +
+              (pre ? string("") : " reqpk=" + std::to_string(pk) + " reqpku=" + std::to_string(pku) + " reqfin=" + std::to_string(fin) + " reqfinu=" + std::to_string(finu)) +
               " requ:" + eu.c_str() + ":" + showS(u.as<JsonVariantConst>());
       } else {
         e = deser('j', d, rk, in, consumed, DeserializationOption::NestingLimit((uint8_t)lim));
@@ -121,15 +126,20 @@ int main(int argc, char** argv) {
       JsonDocument d(&SPY0); if (pre) prefill(d);
       SPY0.requested = 0;
       long consumed; DeserializationError e;
+      size_t base = 0;
       if (fhex == "-") e = deser('m', d, rk, in, consumed, DeserializationOption::NestingLimit((uint8_t)lim));
       else {
         JsonDocument fd; string f = unhex(fhex); deserializeJson(fd, f, DeserializationOption::NestingLimit(20));
+        SPY0.markPeak(); base = SPY0.cur;
         e = deser('m', d, rk, in, consumed, DeserializationOption::Filter(fd.as<JsonVariantConst>()), DeserializationOption::NestingLimit((uint8_t)lim));
       }
-      size_t req = SPY0.requested;
+      size_t req = SPY0.requested; long pk = (long)SPY0.peak - (long)base, fin = (long)SPY0.cur - (long)base;
       string mp; serializeMsgPack(d, mp);
       out = string(e.c_str()) + " " + showS(d.as<JsonVariantConst>()) + " " + num(consumed) + " " + (mp.empty() ? "-" : hexs(mp)) + " req=" + std::to_string(req);
-      if (fhex != "-") { JsonDocument u(&SPY0); SPY0.requested = 0; long c2; deser('m', u, rk, in, c2, DeserializationOption::NestingLimit((uint8_t)lim)); out += " requ=" + std::to_string(SPY0.requested); }
+      if (fhex != "-") { JsonDocument u(&SPY0); SPY0.requested = 0; long c2; SPY0.markPeak(); base = SPY0.cur;
+        DeserializationError eu = deser('m', u, rk, in, c2, DeserializationOption::NestingLimit((uint8_t)lim)); out += " requ=" + std::to_string(SPY0.requested);
+        if (!pre) out += " reqpk=" + std::to_string(pk) + " reqpku=" + std::to_string((long)SPY0.peak - (long)base) + " reqfin=" + std::to_string(fin) + " reqfinu=" + std::to_string((long)SPY0.cur - (long)base);
+        out += string(" requc=") + std::to_string((int)eu.code()); }
     } else if (op == "jsonser" || op == "mpser") {
       int cfg = cfgBits(); string spec; if (op == "jsonser") is >> cfg; is >> spec;
       if (cfg != cfgBits()) { std::cout << "cfg-mismatch\n"; continue; }
@@ -272,10 +282,11 @@ int main(int argc, char** argv) {
         if (kind == "sl") return DO(LIT[atoi(arg.c_str())]);
         if (kind == "sc") { string s = unhex(arg); return DO(s); }
 #if __cplusplus >= 201703L
-        if (kind == "sv") { string s = unhex(arg); std::string_view v(s); bool r = DO(v); s.assign(s.size(), 'Z'); return r; }
+        // sized kinds are slices of a longer buffer: the byte after the slice is not a terminator
+        if (kind == "sv") { string s = unhex(arg); size_t n = s.size(); s += "97"; std::string_view v(s.data(), n); bool r = DO(v); s.assign(s.size(), 'Z'); return r; }
 #endif
         if (kind == "sp") { string s = unhex(arg); std::vector<char> b(s.begin(), s.end()); b.push_back(0); char* p = b.data(); bool r = DO(p); memset(b.data(), 'Z', b.size()); return r; }
-        if (kind == "sj") { string s = unhex(arg); bool r = DO(JsonString(s.data(), s.size(), JsonString::Copied)); s.assign(s.size(), 'Z'); return r; }
+        if (kind == "sj") { string s = unhex(arg); size_t n = s.size(); s += "97"; bool r = DO(JsonString(s.data(), n, JsonString::Copied)); s.assign(s.size(), 'Z'); return r; }
         if (kind == "sjl") { string s = unhex(arg); return DO(JsonString(keep(s), JsonString::Linked)); }
         if (kind == "raw") { string s = unhex(arg); return DO(serialized(s)); }
         if (kind == "ref") return DO(refs[atoi(arg.c_str())]);
@@ -283,19 +294,33 @@ int main(int argc, char** argv) {
         return false;
 #undef DO
       };
+      // WITHKEY(kk, keybytes, expr-using-KEY): the key is handed to the library through source kind kk (default std::string)
+#if __cplusplus >= 201703L
+#define KEY_SV(ks, body) else if (kk == "sv") { string kl_ = ks + "97"; std::string_view KEY(kl_.data(), ks.size()); body; }
+#else
+#define KEY_SV(ks, body)
+#endif
+#define WITHKEY(kk, ks, body) do { \
+        if (kk == "sp") { std::vector<char> kb_(ks.begin(), ks.end()); kb_.push_back(0); char* KEY = kb_.data(); body; memset(kb_.data(), 'Z', kb_.size()); } \
+        else if (kk == "sj") { string kl_ = ks + "97"; JsonString KEY(kl_.data(), ks.size(), JsonString::Copied); body; } \
+        else if (kk == "sjl") { JsonString KEY(keep(ks), JsonString::Linked); body; } \
+        KEY_SV(ks, body) \
+        else { const string& KEY = ks; body; } } while (0)
       if (op == "reset") { for (int i = 0; i < 3; i++) { JsonDocument e(&HSPY[i]); swap(docs[i], e); } for (auto& r : refs) r = JsonVariant(); for (auto& s : HSPY) { s.resetCounters(); s.logging = true; } GLOG.clear(); }
       else if (op == "geo") { int a, b, c, so; is >> a >> b >> c >> so;
         if (a != ARDUINOJSON_POOL_CAPACITY || b != ARDUINOJSON_INITIAL_POOL_COUNT || c != ARDUINOJSON_SLOT_ID_SIZE || so != (int)StringNode::sizeForLength(0)) { std::cout << "geo-mismatch\n"; continue; } }
       else if (op == "root") { int r, d; is >> r >> d; refs[r] = docs[d].as<JsonVariant>(); }
-      else if (op == "mem") { int r, r2; string k; is >> r >> r2 >> k; string key = unhex(k); JsonVariant v = refs[r2][key]; refs[r] = v; }
-      else if (op == "memw") { int r, r2; string k; is >> r >> r2 >> k; string key = unhex(k); refs[r] = refs[r2][key].to<JsonVariant>(); }
+      else if (op == "mem") { int r, r2; string k, kk; is >> r >> r2 >> k >> kk; string key = unhex(k); JsonVariant v; WITHKEY(kk, key, v = refs[r2][KEY]); refs[r] = v; }
+      else if (op == "memw") { int r, r2; string k, kk; is >> r >> r2 >> k >> kk; string key = unhex(k); JsonVariant v; WITHKEY(kk, key, v = refs[r2][KEY].template to<JsonVariant>()); refs[r] = v; }
       else if (op == "elem") { int r, r2; size_t i; is >> r >> r2 >> i; JsonVariant v = refs[r2][i]; refs[r] = v; }
       else if (op == "elemw") { int r, r2; size_t i; is >> r >> r2 >> i; refs[r] = refs[r2][i].to<JsonVariant>(); }
       else if (op == "set") { int r; string k, a; is >> r >> k >> a; out = val(refs[r], false, k, a) ? "1" : "0"; }
-      else if (op == "setm") { int r; string key, k, a; is >> r >> key >> k >> a; string ks = unhex(key); auto px = refs[r][ks]; bool ok;
-        if (k == "null") ok = px.set(nullptr); else if (k == "i") ok = px.set((long long)strtoll(a.c_str(), 0, 10)); else if (k == "sc") { string s = unhex(a); ok = px.set(s); }
-        else if (k == "sl") ok = px.set(LIT[atoi(a.c_str())]); else if (k == "ref") ok = px.set(refs[atoi(a.c_str())]);
-        else if (k == "d") { uint64_t b = strtoull(a.c_str(), 0, 16); double f; memcpy(&f, &b, 8); ok = px.set(f); } else ok = false; out = ok ? "1" : "0"; }
+      else if (op == "setm") { int r; string key, k, a, kk; is >> r >> key >> k >> a >> kk; string ks = unhex(key); bool ok = false;
+#define SETM_BODY { auto px = refs[r][KEY]; \
+        if (k == "null") ok = px.set(nullptr); else if (k == "i") ok = px.set((long long)strtoll(a.c_str(), 0, 10)); else if (k == "sc") { string s = unhex(a); ok = px.set(s); } \
+        else if (k == "sl") ok = px.set(LIT[atoi(a.c_str())]); else if (k == "ref") ok = px.set(refs[atoi(a.c_str())]); \
+        else if (k == "d") { uint64_t b = strtoull(a.c_str(), 0, 16); double f; memcpy(&f, &b, 8); ok = px.set(f); } else ok = false; }
+        WITHKEY(kk, ks, SETM_BODY); out = ok ? "1" : "0"; }
       else if (op == "sete") { int r; size_t i; string k, a; is >> r >> i >> k >> a; auto px = refs[r][i]; bool ok;
         if (k == "null") ok = px.set(nullptr); else if (k == "i") ok = px.set((long long)strtoll(a.c_str(), 0, 10)); else if (k == "sc") { string s = unhex(a); ok = px.set(s); }
         else if (k == "ref") ok = px.set(refs[atoi(a.c_str())]); else ok = false; out = ok ? "1" : "0"; }
@@ -304,7 +329,7 @@ int main(int argc, char** argv) {
       else if (op == "toarr") { int r, r2; is >> r >> r2; JsonArray a = refs[r2].to<JsonArray>(); refs[r] = a; }
       else if (op == "toobj") { int r, r2; is >> r >> r2; JsonObject o = refs[r2].to<JsonObject>(); refs[r] = o; }
       else if (op == "remi") { int r; size_t i; is >> r >> i; refs[r].remove(i); }
-      else if (op == "remk") { int r; string k; is >> r >> k; string key = unhex(k); refs[r].remove(key); }
+      else if (op == "remk") { int r; string k, kk; is >> r >> k >> kk; string key = unhex(k); WITHKEY(kk, key, refs[r].remove(KEY)); }
       else if (op == "clear") { int r; is >> r; refs[r].clear(); }
       else if (op == "cleardoc") { int d; is >> d; docs[d].clear(); }
       else if (op == "copydoc") { int d, e; is >> d >> e; docs[d] = docs[e]; }
@@ -329,6 +354,7 @@ int main(int argc, char** argv) {
         if (js.c_str() && js.c_str()[js.size()] != 0) out += " NOT-NUL-TERMINATED";
         const char* cs = v.as<const char*>(); if ((cs == nullptr) != (js.c_str() == nullptr)) out += " CSTR-MISMATCH"; }
       string lg = HLOG();
+      if (UNTERMINATED) { out += " NOT-NUL-TERMINATED"; UNTERMINATED = 0; }
       out = op + " " + out + "|" + lg;
       for (auto& sp : HSPY) if (sp.bad) out += " ALLOCATOR-MISUSE";
     } else if (op == "jsonre" || op == "mpre") {
@@ -392,14 +418,18 @@ int main(int argc, char** argv) {
       if (op == "stream" && cfg != cfgBits()) { std::cout << "cfg-mismatch\n"; continue; }
       string in = unhex(hex); Block b(in); CountingReader r{b.p, in.size()}; r.chunk = (size_t)chunk;
       std::istringstream iss(in);
+      BlockBuf bb(b.p, in.size(), 1 + in.size() % 7); std::istream bis(&bb);
       for (int k = 0; k < 40; k++) {
-        JsonDocument d(&SPY0), d2(&SPY0);
+        JsonDocument d(&SPY0), d2(&SPY0), d3(&SPY0);
+        DeserializationError e3 = op == "stream" ? deserializeJson(d3, bis, DeserializationOption::NestingLimit((uint8_t)lim))
+                                                 : deserializeMsgPack(d3, bis, DeserializationOption::NestingLimit((uint8_t)lim));
         DeserializationError e = op == "stream" ? deserializeJson(d, r, DeserializationOption::NestingLimit((uint8_t)lim))
                                                 : deserializeMsgPack(d, r, DeserializationOption::NestingLimit((uint8_t)lim));
         DeserializationError e2 = op == "stream" ? deserializeJson(d2, iss, DeserializationOption::NestingLimit((uint8_t)lim))
                                                  : deserializeMsgPack(d2, iss, DeserializationOption::NestingLimit((uint8_t)lim));
         out += string(e.c_str()) + " " + showS(d.as<JsonVariantConst>()) + " " + std::to_string(r.pos) + ";";
         if (e != e2 || showS(d.as<JsonVariantConst>()) != showS(d2.as<JsonVariantConst>())) out += "ISTREAM-DIFFERS;";
+        if (e != e3 || showS(d.as<JsonVariantConst>()) != showS(d3.as<JsonVariantConst>()) || bb.consumed() != r.pos) out += "ISTREAM-DIFFERS:block-buffered;";
         if (e != DeserializationError::Ok) break;
         if (r.pos >= in.size()) break;
       }
